@@ -1,7 +1,7 @@
 """C02 (padding budgets), C03 (blocking budgets), C07 (per-state limits)."""
 from .core import AnchorMissing, strip_sites, walk, show, callee_str, callee_decl, decl_matches
 from .paths import stores, calls, field_stores
-from .pat import (num, is_const, unload, last_field, is_field, strip_casts, is_call, has_cmp,
+from .pat import (checked_access_fact, num, is_const, unload, last_field, is_field, strip_casts, is_call, has_cmp,
                   cmp_int_true, all_paths, show_facts, field_chain, root_of, contains, base_of)
 
 FW = 'maybenot'
@@ -11,6 +11,13 @@ def fw_fns(prog):
     names = ['new', 'trigger_events', 'process_event', 'transition', 'update_counter', 'schedule_action',
              'decrement_limit', 'below_action_limits', 'below_limit_blocking', 'below_limit_padding', 'num_machines']
     return {n: prog.fn(FW, 'Framework', n) for n in names}
+
+
+def is_set_test(op, l, r, frac):
+    """the comparison decides "is this fraction limit set": frac > 0.0, or its complement frac <= 0.0 (an early exit when
+    unset; the two differ only for NaN, which construction rejects, and then neither form denies)"""
+    return (op == 'Gt' and frac(l) and is_const(r, 0.0)) or (op == 'Lt' and frac(r) and is_const(l, 0.0)) or \
+        (op == 'Le' and frac(l) and is_const(r, 0.0)) or (op == 'Ge' and frac(r) and is_const(l, 0.0))
 
 
 def ret_defs(fa):
@@ -302,7 +309,7 @@ def check_padding(ctx, rep, pid):
            (op == 'Gt' and is_field(r, 'padding_sent', 'MachineRuntime') and is_field(l, 'allowed_padding_packets')):
             found['budget'] = True
         for who, key in (('machine', 'm'), ('global', 'g')):
-            if (op == 'Gt' and frac_is(l, who) and is_const(r, 0.0)) or (op == 'Lt' and frac_is(r, who) and is_const(l, 0.0)):
+            if is_set_test(op, l, r, lambda x: frac_is(x, who)):
                 found[key + '_set'] = True
             if (op == 'Ge' and padding_ratio_ok(l, who) and frac_is(r, who)) or (op == 'Le' and padding_ratio_ok(r, who) and frac_is(l, who)):
                 found[key + '_ratio'] = True
@@ -318,7 +325,7 @@ def check_padding(ctx, rep, pid):
                     if frac_is(l, who) or frac_is(r, who):
                         other = r if frac_is(l, who) else l
                         if num(other) is not None:
-                            okop = (op == 'Gt' and frac_is(l, who) and is_const(r, 0.0)) or (op == 'Lt' and frac_is(r, who) and is_const(l, 0.0))
+                            okop = is_set_test(op, l, r, lambda x: frac_is(x, who))
                         else:
                             okop = (op == 'Ge' and padding_ratio_ok(l, who) and frac_is(r, who)) or \
                                    (op == 'Le' and padding_ratio_ok(r, who) and frac_is(l, who)) or \
@@ -409,7 +416,8 @@ def check_accounting_padding(ctx, rep, pid):
     # padding_sent increment iff bounds check passed: the store block is dominated by the false edge of mi >= len
     for (pe, v, site) in field_stores(fa, 'padding_sent', 'MachineRuntime'):
         st = pf.at(site[0], site[1])
-        ok, w = all_paths(st, lambda S: cmp_int_true(S, 'lt', lambda l: True, lambda r: is_call(r, 'len')))
+        ok, w = all_paths(st, lambda S: cmp_int_true(S, 'lt', lambda l: True, lambda r: is_call(r, 'len')) or
+                          checked_access_fact(S, lambda i: True, True))
         rep.ob(pid + '.R5', fn, 'per-machine-padding-after-bounds-check', ok, 'store dominated by id < runtime.len()')
         # and the index is the event's machine id
         p = unload(pe)
@@ -635,14 +643,45 @@ def rule_dispatch_discipline(ctx, rep, rid, arms_of_interest):
                'framework-wide accounting reachable after a machine was already notified: %s' % sorted({n for n, _ in bad}) if bad else 'ok')
 
 
+def per_helper_or_composite(ctx, rep, pid, rules):
+    """The rules about what each of the three limit predicates returns are run first; when they fail (the predicates were
+    restructured, renamed away or re-parameterised) the same clauses are judged on the composite of transition
+    (rules_gate.py).  Either form is a necessary condition of the property on the program; the check passes with one."""
+    from .report import Report
+    from .rules_gate import gate_composite
+    sub = Report(rep.pid, rep.tier)
+    try:
+        for r in rules:
+            r(ctx, sub, pid)
+    except AnchorMissing as e:
+        sub.fail_closed(pid + '.anchor', str(e))
+    if not sub.failing():
+        rep.absorb(sub)
+        return
+    sub2 = Report(rep.pid, rep.tier)
+    try:
+        gate_composite(ctx, sub2, pid)
+    except AnchorMissing as e:
+        sub2.fail_closed(pid + '.G', str(e))
+    except Exception as e:   # the composite is a fallback: its own failure must not hide the first verdict
+        sub2.fail_closed(pid + '.G', 'internal error %s: %s' % (type(e).__name__, e))
+    if not sub2.failing():
+        rep.absorb(sub2)
+        rep.notes.append('limit predicates judged on the composite of transition; per-predicate rules failed on: '
+                         + ', '.join(o['construct'] for o in sub.failing()[:6]))
+        rep.extra['gate_composite'] = {'used': True, 'per_predicate_failures': [o['key'] for o in sub.failing()][:20]}
+    else:
+        rep.absorb(sub)
+        rep.extra['gate_composite'] = {'used': False, 'composite_failures': [o['key'] for o in sub2.failing()][:20]}
+
+
 def check_C02(ctx, rep):
     pid = 'C02'
     rule_initial_state(ctx, rep, pid)
     rep.rule(pid + '.R8', 'dispatch discipline in process_event: no path returns before the event kind was dispatched; framework-wide accounting of an arm happens before any machine is notified')
     rule_dispatch_discipline(ctx, rep, pid + '.R8', ('PaddingSent', 'NormalSent'))
     rule_gating(ctx, rep, pid)
-    rule_kind_table(ctx, rep, pid)
-    check_padding(ctx, rep, pid)
+    per_helper_or_composite(ctx, rep, pid, (rule_kind_table, check_padding))
     check_accounting_padding(ctx, rep, pid)
     rep.assumptions += ['every CFG path is treated as feasible', 'floating point ratio values are not decided',
                         'fractions are validated NaN-free (C12.R1)']
@@ -787,7 +826,7 @@ def check_blocking(ctx, rep, pid):
             if frac_is(l, who) or frac_is(r, who):
                 other = r if frac_is(l, who) else l
                 if num(other) is not None:
-                    ok = (op == 'Gt' and frac_is(l, who) and is_const(r, 0.0)) or (op == 'Lt' and frac_is(r, who) and is_const(l, 0.0))
+                    ok = is_set_test(op, l, r, lambda x: frac_is(x, who))
                     found[key + '_set'] = found[key + '_set'] or ok
                 else:
                     ok = (op in ('Ge', 'Lt') and share_ok(l, who) and frac_is(r, who)) or (op in ('Le', 'Gt') and share_ok(r, who) and frac_is(l, who))
@@ -939,8 +978,7 @@ def check_C03(ctx, rep):
     from .rules_fw import check_time_impl
     check_time_impl(ctx, rep, pid + '.R6')
     rule_gating(ctx, rep, pid)
-    rule_kind_table(ctx, rep, pid)
-    check_blocking(ctx, rep, pid)
+    per_helper_or_composite(ctx, rep, pid, (rule_kind_table, check_blocking))
     check_accounting_blocking(ctx, rep, pid)
     check_clock(ctx, rep, pid)
     rep.assumptions += ['every CFG path is treated as feasible', 'values of the quotients (e.g. 0/0) are not decided',
@@ -1122,7 +1160,22 @@ def check_decrement_sites(ctx, rep, pid):
 
             def is_event_id(e):
                 return is_call(e, 'into_raw') and is_field(e[2][0], 'machine', 'TriggerEvent') and ('var', ('deref', ('param', 2)), v) in list(walk(e))
-            ok_id = is_event_id(strip_sites(mi)) or has_cmp(S, 'eq', lambda l: l == strip_sites(mi), is_event_id, True)
+            smi = strip_sites(mi)
+
+            def is_mi(e):
+                # mi itself, or Some(mi) (`Some(mi) == self.machine_index(id)`)
+                while True:
+                    if e == smi or strip_sites(e) == smi:
+                        return True
+                    if isinstance(e, tuple) and e and e[0] in ('refv', 'ref', 'load', 'pick'):
+                        e = e[1]
+                        continue
+                    break
+                return isinstance(e, tuple) and e and e[0] == 'agg' and e[2] == 'Some' and any(strip_sites(x[1]) == smi for x in e[3])
+
+            def has_event_id(e):
+                return is_event_id(e) or contains(e, lambda y: isinstance(y, tuple) and is_event_id(y))
+            ok_id = is_event_id(smi) or has_cmp(S, 'eq', is_mi, has_event_id, True)
             rep.ob(pid + '.R2', fn, 'arm:%s:unchanged-guard' % v, ok_tr, 'transition(self, id, Event::%s) == Unchanged on the path' % v)
             rep.ob(pid + '.R2', fn, 'arm:%s:not-ended-guard' % v, ok_end, 'current_state != STATE_END on the path')
             rep.ob(pid + '.R2', fn, 'arm:%s:own-id' % v, ok_id, 'argument %s is the id carried by the event' % show(mi))
@@ -1231,7 +1284,6 @@ def check_C07(ctx, rep):
     check_state_limit_writers(ctx, rep, pid)
     check_decrement_sites(ctx, rep, pid)
     check_limit_reached(ctx, rep, pid)
-    check_limit_everywhere(ctx, rep, pid)
-    rule_kind_table(ctx, rep, pid)
+    per_helper_or_composite(ctx, rep, pid, (check_limit_everywhere, rule_kind_table))
     rep.assumptions += ['every CFG path is treated as feasible', 'counts over concrete histories are not decided']
     return 'static who-may-write inventory of state_limit, guards of its three writers, call-site guards of decrement_limit and completeness of the LimitReached test'
